@@ -220,10 +220,18 @@ shrink(ZixHash* const hash)
   if (hash->n_entries > min_n_entries) {
     const size_t old_n_entries = hash->n_entries;
 
+    const size_t old_mask = hash->mask;
+
     hash->n_entries >>= 1U;
     hash->mask = hash->n_entries - 1U;
 
-    return rehash(hash, old_n_entries);
+    const ZixStatus st = rehash(hash, old_n_entries);
+    if (st) {
+      hash->n_entries = old_n_entries;
+      hash->mask      = old_mask;
+    }
+
+    return st;
   }
 
   return ZIX_STATUS_SUCCESS;
